@@ -86,3 +86,102 @@ def run(tier: str, seed: int, known: list[dict[str, Any]]) -> dict[str, Any]:
                      f"{len(r['harness_errors'])} history-dependent results (model validation)")
     r["obligations"] = r["discharged"] = r["distinct_nontrivial"] = 0
     return r
+
+
+# ---- fresh processes: same inputs in separate interpreters with different hash seeds ------------------------------
+_CHILD = r'''
+import sys, json, copy, hashlib, signal
+sys.path.insert(0, %r)
+from spec import es_ast
+from spec.families import programs
+from harness import pC01, pC02
+class TO(BaseException): pass
+def _a(s, f): raise TO()
+signal.signal(signal.SIGALRM, _a)
+out = {}
+for i, (n, p) in enumerate(programs("quick", %d)):
+    if i %% %d != 0:
+        continue
+    try:
+        c = pC01.compile_text(es_ast.to_text(p))
+    except Exception as e:
+        out[n] = "rejected " + type(e).__name__
+        continue
+    from spec.ssb_machine import norm_param
+    res = [repr([[(op.offset, op.op_code.name, [norm_param(q) for q in op.params]) for op in r] for r in c.routine_ops]),
+           c.source_map.serialize()]
+    x = (c.routine_infos, pC02.renumber(c.routine_ops), c.named_coroutines)
+    signal.alarm(6)
+    try:
+        t, sm = pC02.decompile(copy.deepcopy(x[0]), copy.deepcopy(x[1]), x[2])
+        res += [t, sm.serialize()]
+    except TO:
+        res += ["TIMEOUT"]
+    except BaseException as e:
+        res += ["raised " + type(e).__name__]
+    finally:
+        signal.alarm(0)
+    out[n] = hashlib.sha256(repr(res).encode()).hexdigest() if "TIMEOUT" not in res else "TIMEOUT"
+print("@@" + json.dumps(out))
+'''
+
+
+def fresh_processes(tier: str, seed: int, known: list[dict[str, Any]]) -> dict[str, Any]:
+    import json
+    import os
+    import subprocess
+    import sys
+    import time
+
+    root = os.path.dirname(os.path.dirname(os.path.abspath(__file__)))
+    step = 12 if tier == "quick" else 3
+    t0 = time.time()
+    procs = []
+    for hs in ("0", "1", "4242", "random"):
+        env = dict(os.environ, PYTHONHASHSEED=hs, PYTHONWARNINGS="ignore")
+        procs.append(subprocess.Popen([sys.executable, "-c", _CHILD % (root, seed, step)], env=env, stdout=subprocess.PIPE,
+                                      stderr=subprocess.DEVNULL, text=True))
+    outs = []
+    for p in procs:
+        o, _ = p.communicate(timeout=3600)
+        line = [x for x in o.splitlines() if x.startswith("@@")]
+        outs.append(json.loads(line[0][2:]) if line else None)
+    res: dict[str, Any] = {"engine": "E", "id": "C11.F", "violations": [], "harness_errors": [], "inconclusive": [],
+                           "known_hits": [], "samples": [], "obligations": 0, "discharged": 0, "distinct_nontrivial": 0}
+    if any(o is None for o in outs):
+        res["harness_errors"].append({"ob": "C11.F", "what": "a child interpreter produced no result"})
+        return res
+    names = list(outs[0].keys())
+    diffs = [n for n in names if len({o.get(n) for o in outs if o.get(n) != "TIMEOUT"}) > 1]
+    for n in diffs[:3]:
+        import hashlib
+
+        rec = {"property": "C11", "obligation": "C11.F", "module": "harness.pC11", "func": "replay_fresh", "args": [n, seed, step],
+               "kwargs": {}, "what": "result differs between fresh interpreters with different hash seeds"}
+        d = os.path.join(root, "replays", "C11")
+        os.makedirs(d, exist_ok=True)
+        path = os.path.join(d, "C11.F-" + hashlib.sha256(n.encode()).hexdigest()[:12] + ".json")
+        json.dump(rec, open(path, "w"), indent=1)
+        res["violations"].append({"ob": "C11.F", "replay": path,
+                                  "message": f"{n}: compile/decompile result differs between fresh processes (PYTHONHASHSEED 0/1/4242/random)"})
+    res["samples"].append({"fresh_processes": 4, "inputs": len(names), "differences": len(diffs)})
+    res["headline"] = (f"{len(names)} inputs compiled and decompiled in 4 fresh interpreters with different hash seeds: "
+                       f"{len(diffs)} differing results, {round(time.time() - t0)} s")
+    return res
+
+
+def replay_fresh(name: str, seed: int, step: int) -> bool:
+    import json
+    import os
+    import subprocess
+    import sys
+
+    root = os.path.dirname(os.path.dirname(os.path.abspath(__file__)))
+    vals = set()
+    for hs in ("0", "1", "4242", "random"):
+        env = dict(os.environ, PYTHONHASHSEED=hs, PYTHONWARNINGS="ignore")
+        o = subprocess.run([sys.executable, "-c", _CHILD % (root, seed, step)], env=env, capture_output=True, text=True).stdout
+        line = [x for x in o.splitlines() if x.startswith("@@")]
+        vals.add(json.loads(line[0][2:]).get(name))
+    vals.discard("TIMEOUT")
+    return len(vals) <= 1
